@@ -16,6 +16,11 @@ def run(ctx, rep):
     return rep
 
 
+def _is_stage_field(w, term):
+    """The async writer's staging buffer: the `Vec<u8>` field of a crate type (whatever it is called)."""
+    return any(fn_ == term[2] and fty_ == "std::vec::Vec<u8>" for (_, fn_, fty_) in w.adt_fields(term[1]))
+
+
 def sink_kind(w, b, t):
     """'partial' for write()-like sinks returning the accepted amount, 'whole' for all-or-error sinks, None otherwise."""
     c = t.callee
@@ -230,8 +235,10 @@ def check_config(cfg, w, rep):
             continue
         body = lf.body
         cf = prog.cfg(body)
+        from .c14 import temp_types as _tt
+        owners_ = _tt(w)
         takes = [(blk, t) for blk, t in body.calls() if t.callee is not None and t.callee.path == "std::option::Option::<T>::take"
-                 and "write::Inner" in (t.callee.self_ty or "") + " ".join(t.callee.args or [])]
+                 and any(o_ in (t.callee.self_ty or "") + " ".join(t.callee.args or []) for o_ in owners_)]
         if not takes:
             continue
         assigns = {b.i for b in body.blocks if not b.cleanup for st in b.stmts
@@ -324,7 +331,8 @@ def check_config(cfg, w, rep):
             lf = prog.owner_fn(e.body)
             c = e.classes.get("dst")
             ok = c is not None and c[0] == "Content" and c[2][0] == "call" and c[2][1] == "ssri::IntegrityOpts::result" and \
-                c[2][2] and c[2][2][0][0] == "field" and c[2][2][0][2] == "builder"
+                c[2][2] and c[2][2][0][0] == "field" and any(
+                    fn_ == c[2][2][0][2] and fty_ == "ssri::IntegrityOpts" for (_, fn_, fty_) in w.adt_fields(c[2][2][0][1]))
             # publication must REPLACE whatever sits at the address (rename): a stale or damaged file left there by a crash
             # (or, with link_to, a symlink whose target changed) must not survive a successful write of the right bytes
             if e.term.callee.path.endswith("persist_noclobber"):
@@ -599,7 +607,7 @@ def check_staging(cfg, w, rep, lf):
             if not t.args or t.args[0].place is None:
                 continue
             recv = w.sym.of_operand(body, t.args[0])
-            on_stage = recv[0] == "field" and recv[2] == "buf"
+            on_stage = recv[0] == "field" and _is_stage_field(w, recv)
             if not on_stage and not (p == "core::slice::<impl [T]>::copy_from_slice"):
                 continue
             if p == "std::vec::Vec::<T, A>::set_len" and on_stage:
@@ -608,7 +616,7 @@ def check_staging(cfg, w, rep, lf):
             elif p == "core::slice::<impl [T]>::copy_from_slice":
                 dst = w.sym.of_operand(body, t.args[0])
                 src = w.sym.of_operand(body, t.args[1])
-                if dst[0] == "field" and dst[2] == "buf" and src == bufp and cf.dominates(blk.i, sblk.i):
+                if dst[0] == "field" and _is_stage_field(w, dst) and src == bufp and cf.dominates(blk.i, sblk.i):
                     rng = dst[3][-1] if dst[3] else None
                     if rng and rng[0] == "[]" and len(rng) == 2 and rng[1][0] == "agg" and teq(dict(rng[1][3]).get("end"), len_buf):
                         copy = blk.i
